@@ -12,6 +12,11 @@ Correspondence (Float instance of the same definitions, lean/PyGam/Model/Dists.l
   dist.phi          Distribution.phi(y, mu, edof, weights)             vs phi
   dist.sample.args  arguments received by numpy.random.{normal,binomial,poisson,gamma,wald} vs samplerParams (exact)
   dist.sample.draws seeded real draws: sample mean / variance vs (mu, scale V(mu)) with 8-sigma bounds (supporting)
+Boundary of the support (oracle only, deterministic, every run):
+  dist.log_pdf.boundary  Poisson y = 0, binomial y = 0 / y = levels (levels > 1 too), float and integer counts, alone and mixed with
+                    interior observations, weights None / ones / 0.5 / 3 / mixed; continuous families at y = mu of extreme magnitude:
+                    log_pdf(y, mu = y) (the saturated mean sits on the boundary: 0 log 0) and log_pdf(y, mu) vs closed forms written
+                    with scipy.special only, = 0 on the boundary whatever the weights, the deviance identity and deviance(y, y) = 0
 Histories (the values above are functions of (family, scale, y, mu, weights) only — Model/DistState.lean for the one piece of
 state there is, (`_known_scale`, `scale`)):
   dist.purity       every method, each twice in random order, on the SAME y / mu / weights arrays (float64, int64, read-only,
@@ -402,7 +407,10 @@ def check_block(ctx, D, b, outs, state):
         d_impl = R['lp_yy'] - R['lp_ymu']
         d_model = mKyy - mKymu
         lp_scale = 1 + np.abs(R['lp_yy']) + np.abs(R['lp_ymu']) + np.abs(mKyy) + np.abs(mKymu)
-        lp_ok = np.isfinite(mKyy) & np.isfinite(mKymu) & (lp_scale < 1e290)
+        # a NaN returned by log_pdf on a valid (y, mu) is judged (it fails the identity below), it does not switch the
+        # checks off; +-inf (overflow of the density at extreme magnitudes) still does
+        lp_nan = np.isnan(R['lp_yy']) | np.isnan(R['lp_ymu'])
+        lp_ok = np.isfinite(mKyy) & np.isfinite(mKymu) & ((lp_scale < 1e290) | lp_nan)
         if fam in ('binomial', 'poisson'):
             lp_ok &= (y == np.floor(y))                       # pmf: integer counts only
         eLp = np.where(lp_ok, rel_err(d_impl, d_model, 1e-10 * lp_scale + ab_sat / (2 * s_eff * wnum)), 0.0)
@@ -417,7 +425,7 @@ def check_block(ctx, D, b, outs, state):
         fd = (R['dev_p'] - R['dev_m']) / (R['mp'] - R['mm'])
         d_exp = -2 * (y - mu) / (s_eff * R['V'])
         o_fd = np.where(fd_ok, rel_err(fd, d_exp, 1e-5 * Dd + tiny), 0.0)
-        sat_ok = lp_ok & np.isfinite(R['lp_yy']) & np.isfinite(R['lp_ymu'])
+        sat_ok = lp_ok & ~np.isinf(R['lp_yy']) & ~np.isinf(R['lp_ymu'])
         if fam in ('binomial', 'poisson'):
             sat_ok &= np.array([w is None for w in wopt])      # their log_pdf does not take prior weights
         sat = 2 * s_eff * d_impl
@@ -517,6 +525,219 @@ def run_points(ctx, D, blocks=None):
     ctx.extra['max_error_in_tolerance_units'] = dict(oracle=state['max_oracle'], correspondence=state['max_corr'])
     ctx.extra['oracle_counts'] = dict(finite_difference=state['fd_checked'], saturated_identity=state['sat_checked'],
                                       failing_inputs_not_listed=state['fails_suppressed'])
+
+
+# ------------------------------------------------------------------------------------------------
+# boundary of the support: the saturated mean sits on the boundary too (Poisson y = 0 -> mu = 0; binomial y = 0 -> mu = 0,
+# y = levels -> mu = levels), where `y log mu`, `(levels - y) log(1 - mu/levels)` are 0 * log 0.  Deterministic, every run.
+# ------------------------------------------------------------------------------------------------
+def lp_ref(fam, levels, scale, y, mu, w):
+    """closed-form log-density / log-pmf with dispersion scale / w (scipy.special only: gammaln, xlogy, xlog1py; independent of
+    scipy.stats, of pyGAM and of the model).  returns (value, sum of the absolute values of its terms)"""
+    from scipy.special import gammaln, xlogy, xlog1py
+    y = np.asarray(y, dtype=float); mu = np.asarray(mu, dtype=float); w = np.asarray(w, dtype=float)
+    with np.errstate(all='ignore'):
+        if fam == 'normal':
+            var = scale / w
+            terms = [-0.5 * np.log(2 * np.pi * var), -(y - mu) ** 2 / (2 * var)]
+        elif fam == 'binomial':
+            n = float(levels)
+            p = mu / n
+            terms = [gammaln(n + 1) + 0 * y, -gammaln(y + 1), -gammaln(n - y + 1), xlogy(y, p), xlog1py(n - y, -p)]
+        elif fam == 'poisson':
+            terms = [xlogy(y, mu), -mu, -gammaln(y + 1)]
+        elif fam == 'gamma':
+            nu = w / scale
+            terms = [xlogy(nu - 1, y), -y * nu / mu, -nu * np.log(mu / nu), -gammaln(nu)]
+        else:
+            g = w / scale
+            terms = [0.5 * np.log(g / (2 * np.pi)), -1.5 * np.log(y), -g * (y - mu) ** 2 / (2 * mu ** 2 * y)]
+        return sum(terms), sum(np.abs(t) for t in terms)
+
+
+BOUNDARY_WMODES = ('none', 'ones', 'half', 'three', 'mixed')
+
+
+def gen_boundary_cases(ctx):
+    """per family x levels x scale x weights mode: short vectors mixing support-boundary and interior observations (and the
+    boundary observations alone, as float and as integer counts), fixed grids of means plus a few seeded ones"""
+    quick = ctx.tier == 'quick'
+    out = []
+    for fam in FAMS:
+        rng = ctx.subrng('boundary', fam)
+        scales = [0.3, 1.0, 2.5, loguni(rng, 1e-2, 1e2)] if fam in FREE_SCALE else [1.0]
+        level_list = ([1, 2, 5, 17] if quick else [1, 2, 3, 5, 17, 100, 1000]) if fam == 'binomial' else [1]
+        for levels in level_list:
+            n = float(levels)
+            groups = []        # (name, y, mu)
+            if fam == 'poisson':
+                mus = [1e-8, 1e-3, 0.2, 1.0, 7.5, 33.3, 1e4] + [loguni(rng, 1e-6, 1e5) for _ in range(3 if quick else 12)]
+                groups.append(('all boundary', [0.0] * len(mus), mus))
+                groups.append(('one boundary', [0.0], [rng.choice(mus)]))
+                ys = [0.0, 1.0, 0.0, 2.0, 7.0, 0.0, 40.0, 1000.0]
+                groups.append(('mixed', ys, [0.3, 0.3, 2.0, 2.0, 9.1, 50.0, 33.3, 1000.5]))
+                groups.append(('mixed, y = mu inside', [0.0, 3.0, 0.0, 12.0], [4.0, 3.0, loguni(rng, 1e-3, 1e3), 12.0]))
+            elif fam == 'binomial':
+                ps = [1e-6, 0.05, 0.5, 0.95, 1 - 1e-6] + [rng.uniform(0.01, 0.99) for _ in range(2 if quick else 8)]
+                groups.append(('all y = 0', [0.0] * len(ps), [n * p for p in ps]))
+                groups.append(('all y = levels', [n] * len(ps), [n * p for p in ps]))
+                groups.append(('one boundary', [rng.choice([0.0, n])], [n * rng.choice(ps)]))
+                ys = [0.0, n] * 3
+                if levels > 1:
+                    ys += [1.0, n - 1.0, float(rng.randint(1, levels - 1)), float(levels // 2)]
+                groups.append(('mixed', ys, [n * rng.choice(ps) for _ in ys]))
+            elif fam == 'normal':
+                groups.append(('zero', [0.0, 0.0, 0.0, 0.0], [0.0, 1e-3, -4.0, loguni(rng, 1e-3, 1e3)]))
+                groups.append(('mixed', [0.0, 1.5, -2.0, 1e6, 0.0, -3e-4], [0.0, 1.5, 3.0, 1e6 + 1, rng.uniform(-5, 5), -3e-4]))
+            else:
+                # open support (y > 0): the saturated mean at small / large magnitudes
+                groups.append(('y = mu', [1e-6, 1.0, 0.37, 1e6], [1e-6, 1.0, 0.37, 1e6]))
+                groups.append(('mixed', [1e-6, 1e-6, 1.0, 1.0, 1e6, 0.37], [1e-6, 2e-6, 1.0, 3.0, 2e6, loguni(rng, 0.05, 5)]))
+            for scale in scales:
+                for name, ys, mus in groups:
+                    for wmode in BOUNDARY_WMODES:
+                        if wmode == 'none':
+                            w = None
+                        elif wmode == 'mixed':
+                            w = [float(rng.choice([0.5, 1.0, 2.0, 3.0, loguni(rng, 1e-2, 1e2)])) for _ in ys]
+                        else:
+                            w = [dict(ones=1.0, half=0.5, three=3.0)[wmode]] * len(ys)
+                        for y_int in ((False, True) if (fam in ('binomial', 'poisson') and wmode in ('none', 'ones')) else (False,)):
+                            out.append(dict(kind='boundary', fam=fam, levels=levels, scale=float(scale), group=name, wmode=wmode,
+                                            y_int=y_int, y=[float(v) for v in ys], mu=[float(v) for v in mus], w=w))
+    return out
+
+
+def boundary_eval(D, c):
+    """the public calls of one case on fresh arrays and a new distribution object, judged element by element.
+    returns (failures [(element, check, observed, expected, error in tolerance units)], values) or (exception text, None)"""
+    fam, levels, scale = c['fam'], c['levels'], c['scale']
+    s_eff = eff_scale(fam, scale)
+    y = np.array(c['y'], dtype=float); mu = np.array(c['mu'], dtype=float)
+    m = len(y)
+    wnum = np.ones(m) if c['w'] is None else np.array(c['w'], dtype=float)
+    unit_w = bool(np.all(wnum == 1.0))
+
+    def Y():
+        return np.array([int(v) for v in c['y']], dtype=np.int64) if c.get('y_int') else _arr(y)
+    kw = (lambda: {}) if c['w'] is None else (lambda: dict(weights=_arr(wnum)))
+    R = {}
+    try:
+        with np.errstate(all='ignore'):
+            dist = make_dist(D, fam, scale, levels)
+            R['lp_sat'] = dist.log_pdf(Y(), _arr(y), **kw())
+            R['lp_mu'] = dist.log_pdf(Y(), _arr(mu), **kw())
+            R['dev_u'] = dist.deviance(Y(), _arr(mu), scaled=False, **kw())
+            R['dev_s'] = dist.deviance(Y(), _arr(mu), scaled=True, **kw())
+            R['dev_sat'] = dist.deviance(Y(), _arr(y), scaled=False, **kw())
+        for k in R:
+            R[k] = np.asarray(R[k], dtype=float)
+            if R[k].shape != (m,):
+                raise ValueError('%s has shape %r for %d observations' % (k, R[k].shape, m))
+    except Exception as e:
+        return '%s: %s' % (type(e).__name__, e), None
+
+    at_boundary = (y == 0) if fam == 'poisson' else ((y == 0) | (y == levels)) if fam == 'binomial' else np.zeros(m, dtype=bool)
+    with np.errstate(all='ignore'):
+        ref_sat, mag_sat = lp_ref(fam, levels, s_eff, y, y, wnum)
+        ref_mu, mag_mu = lp_ref(fam, levels, s_eff, y, mu, wnum)
+        dref = dev_ref(fam, levels, y, mu) * wnum
+        mag_u = dev_magnitude(fam, levels, y, mu) * wnum
+        ab_sat = dev_abs_roundoff(fam, levels, y, mu, boundary=True) * wnum
+        mag_yy = (dev_magnitude(fam, levels, y, y) + dev_abs_roundoff(fam, levels, y, y)) * wnum
+        lp_scale = 1 + np.abs(R['lp_sat']) + np.abs(R['lp_mu'])
+        never = np.zeros(m)
+        checks = []
+        # the log-density itself, where its meaning does not depend on how prior weights enter it (none, or all equal to one) ...
+        if unit_w:
+            checks.append(('saturated_logpdf', R['lp_sat'], ref_sat, 1e-10 * (1 + mag_sat),
+                           'log_pdf(y, mu = y) = closed-form log-density at the saturated mean'))
+            checks.append(('logpdf', R['lp_mu'], ref_mu, 1e-10 * (1 + mag_mu), 'log_pdf(y, mu) = closed-form log-density'))
+        # ... and, whatever the weights: a count on the boundary of the support has probability one under its saturated mean
+        if fam in ('binomial', 'poisson'):
+            checks.append(('saturated_logpdf_boundary', np.where(at_boundary, R['lp_sat'], 0.0), never, 1e-10 + never,
+                           'log_pdf(y, mu = y) = 0 for a count on the boundary of the support (probability one), with or without weights'))
+        # deviance = 2 scale (log-density at the saturated mean - log-density at mu), the class's own log_pdf
+        # (binomial / Poisson log_pdf do not take prior weights: without weights; Poisson zero counts also with weights, where
+        #  exposure and prior weight coincide: log P(0; w mu) = w log P(0; mu))
+        if fam in FREE_SCALE or unit_w:
+            ident = np.ones(m, dtype=bool)
+        elif fam == 'poisson':
+            ident = (y == 0)
+        else:
+            ident = np.zeros(m, dtype=bool)
+        sat = 2 * s_eff * (R['lp_sat'] - R['lp_mu'])
+        tol_id = 1e-9 * (2 * s_eff * lp_scale + mag_u) + ab_sat
+        checks.append(('saturated_identity', np.where(ident, R['dev_u'], 0.0), np.where(ident, sat, 0.0), np.where(ident, tol_id, 1.0),
+                       'deviance(scaled=False) = 2 scale (log_pdf(y, y) - log_pdf(y, mu))'))
+        # both sides independently: the textbook unit deviance (times weights); 2 scale x difference of the closed-form densities
+        checks.append(('deviance', R['dev_u'], dref, 1e-9 * mag_u + ab_sat, 'deviance(scaled=False) = weights x textbook unit deviance'))
+        checks.append(('deviance_scaled', R['dev_s'] * s_eff, dref, 1e-9 * mag_u + ab_sat, 'deviance(scaled=True) x scale = weights x textbook unit deviance'))
+        checks.append(('zero_at_saturated', R['dev_sat'], never, mag_yy, 'deviance(y, mu = y) = 0'))
+        fails = []
+        for name, got, want, tol, text in checks:
+            e = rel_err(got, want, 10 * tol)          # x10 margin before calling it a failing input
+            e = np.where(np.isnan(got), np.inf, e)     # NaN is never a log-density / deviance of a valid (y, mu)
+            for i in np.flatnonzero(~(e <= 1.0)):
+                fails.append((int(i), name, float(got[i]), float(want[i]), float(e[i]), text))
+    fails.sort(key=lambda f: f[0])
+    return fails, {k: v.tolist() for k, v in R.items()}
+
+
+def run_boundary(ctx, D, cases=None):
+    st = 'dist.log_pdf.boundary'
+    ctx.stream(st, 'every run, per family x levels x scale x weights (None, ones, 0.5, 3, mixed): observations on the boundary of the support '
+                   '(Poisson y = 0; binomial y = 0 and y = levels, levels 1..17; float and integer counts; alone and mixed with interior ones) '
+                   'and saturated means at extreme magnitudes (continuous families): log_pdf(y, mu = y) and log_pdf(y, mu) vs closed forms '
+                   '(scipy.special only), = 0 on the boundary; deviance = 2 scale (log_pdf(y, y) - log_pdf(y, mu)); deviance vs textbook form; '
+                   'deviance(y, y) = 0.  Oracle only (no model stream)')
+    if cases is None:
+        cases = gen_boundary_cases(ctx)
+    fails = 0
+    for c in cases:
+        fam, levels = c['fam'], c['levels']
+        sig = dict(fam=fam, levels=levels, scale=repr(c['scale']), y=repr(c['y']), mu=repr(c['mu']), w=repr(c['w']), y_int=c.get('y_int', False))
+        ctx.case(st, sig, nontrivial=True, sample=dict(fam=fam, levels=levels, scale=c['scale'], y=c['y'][:3], mu=c['mu'][:3], wmode=c.get('wmode')))
+        ctx.count('boundary', '%s weights %s' % (fam, c.get('wmode', 'given' if c['w'] is not None else 'none')))
+        r = boundary_eval(D, c)
+        if not r[0]:
+            continue
+        if fails >= MAX_FAILS:
+            continue
+        if isinstance(r[0], str):
+            r2 = boundary_eval(D, c)
+            if isinstance(r2[0], str):
+                fails += 1
+                ctx.fail(st, dict(fam=fam, check='exception', levels=levels, weights_given=c['w'] is not None), c,
+                         observed=r[0], expected='log_pdf / deviance return arrays', oracle='public calls on valid (y, mu, weights)')
+            continue
+        i, name, got, want, err, text = r[0][0]
+        # minimise: the failing observation alone; report it when it fails alone as well (twice), else the whole vector (twice)
+        single = dict(c, group='single observation', y=[c['y'][i]], mu=[c['mu'][i]], w=None if c['w'] is None else [c['w'][i]])
+        rep = None
+        for cand in (single, c):
+            a, b = boundary_eval(D, cand), boundary_eval(D, cand)
+            if a[0] and b[0]:
+                rep = (cand, a)
+                break
+        if rep is None:
+            ctx.count('boundary', 'not reproduced')
+            continue
+        cand, a = rep
+        fails += 1
+        if isinstance(a[0], str):
+            ctx.fail(st, dict(fam=fam, check='exception', levels=levels, weights_given=c['w'] is not None), cand,
+                     observed=a[0], expected='log_pdf / deviance return arrays', oracle='public calls on valid (y, mu, weights)')
+            continue
+        j, name, got, want, err, text = a[0][0]
+        yj = cand['y'][j]
+        ctx.fail(st, dict(fam=fam, check=name, levels=levels, scale_is_one=(eff_scale(fam, c['scale']) == 1.0), weights_given=c['w'] is not None,
+                          boundary_y=bool((fam == 'poisson' and yj == 0) or (fam == 'binomial' and yj in (0, levels)))), cand,
+                 observed=dict(element=j, y=yj, mu=cand['mu'][j], w=None if cand['w'] is None else cand['w'][j], check=name, value=got,
+                               error_in_tolerance_units_x10=err, checks_failed=sorted({f[1] for f in a[0]}), values=a[1]),
+                 expected=dict(value=want, statement=text),
+                 oracle='closed-form log-densities from scipy.special (gammaln, xlogy, xlog1py) and textbook unit deviances in float64 NumPy; '
+                        'the identity uses the public return values of log_pdf and deviance only')
 
 
 # ------------------------------------------------------------------------------------------------
@@ -1525,6 +1746,7 @@ def _setup(ctx):
                          '(y, mu, weights) from the support x mean domain incl. y = 0, y = levels, y = mu, y within 1e-9..1e-2 of mu, '
                          'log-uniform magnitudes, neighbours of every numeric literal of distributions.py / ylogydu; '
                          'distinct = distinct (stream, family, levels, scale, y, mu, w) tuples; a point is trivial when y == mu; '
+                         'boundary stream: fixed vectors of support-boundary / interior observations x fixed and seeded means x weight modes; '
                          'histories: distinct (family, levels, scale, container, arrays, call order) / (family, constructor scale, data of '
                          'every estimate) / (family, how the model was built, data sets); trivial when the scale is supplied or fixed')
     ctx.assumptions.append('documented first two moments of numpy.random.{normal,binomial,poisson,gamma,wald} '
@@ -1537,6 +1759,7 @@ def _setup(ctx):
 def run(ctx):
     D = _setup(ctx)
     run_points(ctx, D)
+    run_boundary(ctx, D)
     run_phi(ctx, D)
     run_sampler_args(ctx, D)
     run_draws(ctx, D)
@@ -1555,6 +1778,8 @@ def replay(ctx, rp):
         b = dict(fam=c['fam'], levels=c['levels'], scale=bits2f(c['scale_bits']),
                  cases=[(bits2f(c['y_bits']), bits2f(c['mu_bits']), w)])
         run_points(ctx, D, [b])
+    elif kind == 'boundary':
+        run_boundary(ctx, D, [c])
     elif kind == 'phi':
         run_phi(ctx, D, [c])
     elif kind == 'sampler':
